@@ -159,6 +159,18 @@ def _make_fn(name, sig, is_async, body_name):
     return src
 
 
+def enum_member(version, action):
+    """the member of the version's Action enumeration that is NAMED after the action (snake_case of the action name,
+    compared without the underscores) -- what an application writes as @on(Action.boot_notification); the action
+    string itself if there is no such member"""
+    import importlib
+    A = importlib.import_module("ocpp.%s.enums" % ("v16" if version == "1.6" else "v201")).Action
+    for name in A.__members__:
+        if name == name.lower() and name.replace("_", "") == action.lower():
+            return A.__members__[name]
+    return action
+
+
 def make_cp_class(version, routes):
     """routes: [{'action', 'skip', 'on': {...}|None, 'after': {...}|None}]
     on/after: {'name','sig':{'required','optional','varkw','uid'},'async':bool,'out': tuple}"""
@@ -227,10 +239,11 @@ def make_cp_class(version, routes):
             loc = {}
             exec(src, env, loc)  # noqa: S102 - builds a function with a real signature
             fn = loc[h["name"]]
+            act = enum_member(version, r["action"]) if r.get("by_enum") else r["action"]
             if kind == "on":
-                fn = on(r["action"], skip_schema_validation=bool(r.get("skip"))) (fn)
+                fn = on(act, skip_schema_validation=bool(r.get("skip"))) (fn)
             else:
-                fn = after(r["action"])(fn)
+                fn = after(act)(fn)
             ns[h["name"]] = fn
             specs[h["name"]] = dict(h, action=r["action"])
     cls = type("ScriptedCP", (base,), ns)
